@@ -620,6 +620,11 @@ def obligations(tier):
         Ob('rp66_OBNAME_OBJREF_symbolic_bytes', 'ch', 'every byte string of length <= %d' % (6 if q else 9), var, harness='C07_rp66var', func='obname_objref', timeout=200 if q else 1500, parts=7 if q else 10),
         Ob('lis_text_code_65_read', 'ch', 'LIS code 65 text of declared length 0..8 after 0..2 other bytes, from a file (exactly that many bytes consumed: two sentinels follow) and from bytes; no length -> refused',
            ['LIS.core.RepCode.readRepCode/readBytes (code 65)', 'LIS.core.File.FileRead.readLrBytes'], harness='C07_lis65', func='text_code_65', timeout=150 if q else 600),
+        Ob('lis_public_read_entries', 'ch', 'codes 49/50/56/66/68/70/73/77/79: every word whose bytes come from 9 boundary values (00 01 3f 40 7f 80 bf c0 ff; third byte of a four-byte word 00 80 ff) through RepCode.readBytes(code, bytes), '
+           'readBytesNN(bytes), readRepCode(code, file) and readNN(file): the LIS-79 value of the word, exactly lisSize(code) bytes consumed, the same by every entry',
+           ['LIS.core.RepCode.readBytes/readRepCode/readNN/readBytesNN/lisSize (dispatch maps, struct formats)', 'cRepCode.pyx fromNN (rebuilt from source)', 'LIS.core.File.FileRead.unpack'],
+           harness='C07_lisglue', func='lis_read_glue', timeout=150 if q else 600, parts=9,
+           stubs=['the Cython functions are rebuilt from the current cRepCode.pyx and replace those of the git-ignored compiled extension (which may predate the source)']),
         Ob('rp66_length_helpers_at_index', 'ch', 'every byte string of length 2..7, start index 1..3: OBNAME_len / IDENT_len / ORIGIN_len / UVARI_len at index i = at index 0 of the tail', var,
            harness='C07_rp66var', func='len_helpers_at_index', timeout=150 if q else 900, parts=18),
         Ob('rp66_DTIME_symbolic_bytes', 'ch', 'every byte string of length <= 9', var, harness='C07_rp66var', func='dtime', timeout=150 if q else 900, parts=10),
